@@ -22,8 +22,11 @@ TRUSTED = [
     "translate/convert_table.py: READ part (the except clauses of do_int/do_float, fixed shape) and MEASURED part (which "
     "exception classes int(x[, base]), float(x), int(float(x)) raise on CPython for the sampled value classes); the "
     "convert_total theorem quantifies over the sampled rows, not over all Python values",
+    "wordwrap: textwrap.wrap is a parameter of the model; its contract (keeps the non-whitespace text in order; with "
+    "break_long_words no line exceeds the width) is a hypothesis of the theorems, evaluated by the driver on textwrap's actual "
+    "output for every generated case, never proved",
     "correspondence-only (no Lean theorem; compared with executable reference definitions / documented contracts in this "
-    "file): wordwrap (textwrap assumed), title/capitalize/upper/lower (Unicode case mapping assumed), urlencode (UTF-8 "
+    "file): title/capitalize/upper/lower (Unicode case mapping assumed), urlencode (UTF-8 "
     "percent-encoding reference; urllib quote assumed), round (float arithmetic assumed), striptags (markupsafe assumed), "
     "format (printf-style % assumed), the mantissa digits of filesizeformat (float formatting assumed), wordcount on "
     "non-ASCII text (re's \\w assumed), the values returned by int/float when the conversion succeeds",
@@ -54,8 +57,14 @@ CLAIM = dict(
          "to width - len s (center_spec). trim: the result is an infix of s, the removed ends consist of strip "
          "characters only, the result neither starts nor ends with one, and is a fixed point (trim_spec, trim_idem). "
          "replace (non-empty old): the occurrences-free pieces of s, joined by old, give s, joined by new give the "
-         "result; at most count replacements; no piece contains old (replace_pieces, replace_count, pieces_no_old); "
-         "empty old inserts new before every character and at the end (replace_empty_unlimited). wordcount: additive "
+         "result; at most count replacements; no piece before the last contains old, none at all for an unlimited count, "
+         "and old starts nowhere earlier inside a piece followed by a replacement, i.e. leftmost non-overlapping "
+         "(replace_spec, pieces_join_old, pieces_join_new, pieces_count, pieces_no_old, pieces_leftmost); empty old "
+         "inserts new before every character and at the end, resp. into the first count gaps (replace_empty_unlimited, "
+         "replace_empty_count). wordwrap, relative to textwrap's contract: if textwrap.wrap keeps each paragraph's "
+         "non-whitespace text then so does the filter for a whitespace wrap string, and if no wrapped line exceeds the "
+         "width then the result is its produced lines joined by the wrap string and none exceeds the width "
+         "(wordwrap_keeps_text, wordwrap_fits). wordcount: additive "
          "over non-word separators, 1 on a non-empty word, 0 on separators only (wordcount_sep, wordcount_word, "
          "wordcount_nonword). filesizeformat: '1 Byte' iff the value is 1; 'n Bytes' iff below the base; otherwise "
          "prefix i with base^(i+1) <= value < base^(i+2) for i < 7 and value >= base^8 for the last prefix "
@@ -66,11 +75,12 @@ CLAIM = dict(
          "<= 4 (quick) / <= 5 (thorough) over {a, b, ' ', '\\n', '-', '<'} (indent: {a, ' ', '\\n', '\\r', U+2028}) x argument "
          "grids (truncate 168 combinations incl. rejected ones, indent 16, center 12, trim 6, replace 80) on the real "
          "filter functions and through rendered templates; random long Unicode strings; filesizeformat on boundary ints, "
-         "floats, numeric strings; int/float on every table row plus random numeric spellings. wordwrap, title, "
+         "floats, numeric strings; int/float on every table row plus random numeric spellings; wordwrap through the "
+         "model with textwrap's real output as parameter, the textwrap hypotheses evaluated by the driver per case. title, "
          "capitalize, upper, lower, urlencode, round, striptags, format: correspondence with executable reference "
          "definitions and documented contracts only (no Lean theorem).",
     note="Trusted: Lean kernel; hand model Model/FiltStr.lean (tied by correspondence only); translator and the measured "
-         "exception table (CPython facts for sampled value classes); textwrap, Unicode case mapping, urllib quote, float "
+         "exception table (CPython facts for sampled value classes); textwrap's contract (hypothesis), Unicode case mapping, urllib quote, float "
          "rounding/formatting, markupsafe, printf formatting are assumed (correspondence-only filters). Known finding F7: "
          "float('inf')|int, Decimal('Infinity')|int and (10**400)|float, huge Fraction|float raise OverflowError.",
     design_ref="§5 C23",
@@ -205,8 +215,10 @@ def variant_args(name, cell, variant):
 def run_grids(ctx, res, impl, stats):
     """exhaustive small strings x argument grids, model vs direct call vs rendered template"""
     n_small = ctx.pick(4, 5)
+    rng = ctx.rng("grids")
+    longer = [] if ctx.quick else ["".join(rng.choice(ALPHA) for _ in range(rng.choice([6, 7, 8]))) for _ in range(6000)]
     plans = [
-        ("truncate", strings_upto(ALPHA, n_small)),
+        ("truncate", strings_upto(ALPHA, n_small) + longer),
         ("indent", strings_upto(ALPHA_INDENT, ctx.pick(4, 6))),
         ("center", strings_upto(ALPHA[:3], ctx.pick(5, 7))),
         ("trim", strings_upto(ALPHA, ctx.pick(4, 6))),
@@ -654,7 +666,8 @@ def run_reference(ctx, res, jinja2, impl, stats):
     for _ in range(ctx.pick(800, 8000)):
         texts.append("".join(rng.choice(ascii_pool) for _ in range(rng.randrange(0, 30))))
     for _ in range(ctx.pick(400, 4000)):
-        texts.append("".join(rng.choice(["a", "É", "é", "ж", "Ж", " ", "-", "中", "ǆ", "1", " ", "ö", "Ω"]) for _ in range(rng.randrange(0, 20))))
+        texts.append("".join(rng.choice(["a", "\u00c9", "\u00e9", "\u0436", "\u0416", " ", "-", "\u4e2d", "\u01c6", "1", "\u00a0", "\u00f6",
+                                         "\u03a9", "\u00df", "\u0130", "\ufb01", "\u01c5", "\u1e9e"]) for _ in range(rng.randrange(0, 20))))
     for s in texts:
         check("upper", F.do_upper(s), s.upper(), repr(s))
         check("lower", F.do_lower(s), s.lower(), repr(s))
@@ -666,29 +679,41 @@ def run_reference(ctx, res, jinja2, impl, stats):
             check("capitalize", (c[0], c[1:]), (s[0].upper(), s[1:].lower()), repr(s), "documented contract (first upper, others lower)")
         stats["distinct"].add(("case", s))
 
-    # wordwrap ------------------------------------------------------------------------------------------------
+    # wordwrap: Lean model with textwrap.wrap as its parameter (the wrapper's actual output per paragraph is sent along);
+    # the theorems' hypotheses about textwrap (keeps the text / fits the width) are evaluated by the driver on that output
     t_wrap = env.from_string("{{ s|wordwrap(w, blw, ws, boh) }}")
-    wpool = ["a", "bb", "ccc", "dddddddd", "x-y", "long-hyphen-ated", " ", " ", "  ", "\n", "\n\n", "-", "e" * 25, "é", "中中", "."]
+    wpool = ["a", "bb", "ccc", "dddddddd", "x-y", "long-hyphen-ated", " ", "\u00a0", "  ", "\n", "\n\n", "\r\n", "-", "e" * 25, "\u00e9",
+             "\u4e2d\u4e2d", ".", "\t", "\u2028"]
+    wcases, wreqs = [], []
     for _ in range(ctx.pick(1200, 12000)):
         s = "".join(rng.choice(wpool) for _ in range(rng.randrange(0, 25)))
         w = rng.choice([1, 2, 3, 5, 8, 13, 20, 40, 79])
         blw, boh = rng.random() < 0.6, rng.random() < 0.5
         ws = rng.choice([None, "\n", "|", "<br>\n"])
         sep = env.newline_sequence if ws is None else ws
-        for route, got in (("direct", attempt(lambda: F.do_wordwrap(env, s, w, blw, ws, boh))),
-                           ("render", attempt(lambda: t_wrap.render(s=s, w=w, blw=blw, ws=ws, boh=boh)))):
-            case = f"{s!r} width={w} break_long_words={blw} wrapstring={ws!r} break_on_hyphens={boh} ({route})"
-            want = sep.join(sep.join(textwrap.wrap(line, width=w, expand_tabs=False, replace_whitespace=False,
-                                                   break_long_words=blw, break_on_hyphens=boh)) for line in s.splitlines())
-            check("wordwrap", got, want, case, "per-paragraph textwrap.wrap (textwrap assumed)")
-            if isinstance(got, str) and not got.startswith("raised:") and sep not in s and "|" not in s:
-                lines = got.split(sep) if got else []
-                check("wordwrap", "".join(got.replace(sep, " ").split()), "".join(s.split()), case, "contract: all non-whitespace text kept in order")
-                if blw:
-                    check("wordwrap", [ln for ln in lines if len(ln) > w], [], case, "contract: no line exceeds the width when long words may be broken")
-                else:
-                    check("wordwrap", [ln for ln in lines if len(ln) > w and any(c.isspace() for c in ln.strip())], [], case,
-                          "contract: only a single unbreakable word may exceed the width")
+        table = {}
+        for line in s.splitlines():
+            table[line] = textwrap.wrap(line, width=w, expand_tabs=False, replace_whitespace=False, break_long_words=blw, break_on_hyphens=boh)
+        wcases.append((s, w, blw, boh, ws, sep))
+        wreqs.append([Atom("fs"), Atom("wordwrap"), s, sep, w, [[k, v] for k, v in table.items()]])
+    for (s, w, blw, boh, ws, sep), rep in zip(wcases, core.driver_batch(wreqs)):
+        case = f"{s!r} width={w} break_long_words={blw} wrapstring={ws!r} break_on_hyphens={boh}"
+        if rep[0] != "ok":
+            res.violate("C23:wordwrap:model-splitlines", f"the model's paragraphs of {s!r} are not Python's splitlines", {"filter": "wordwrap", "case": case}, no_input=True)
+            continue
+        want, keeps, fits = canon(rep[1])
+        got_d = attempt(lambda: F.do_wordwrap(env, s, w, blw, ws, boh))
+        got_r = attempt(lambda: t_wrap.render(s=s, w=w, blw=blw, ws=ws, boh=boh))
+        check("wordwrap", got_d, want, case, "the model (paragraphs wrapped separately, joined by the wrap string; textwrap is its parameter)")
+        check("wordwrap", got_r, want, case + " (render)", "the model (paragraphs wrapped separately, joined by the wrap string; textwrap is its parameter)")
+        check("wordwrap:keeps-text", keeps, True, case, "contract evaluated by the driver on textwrap's output: all non-whitespace text kept in order")
+        if blw:
+            check("wordwrap:fits-width", fits, True, case, "contract evaluated by the driver on textwrap's output: no line exceeds the width")
+        elif isinstance(got_d, str) and sep not in s and "|" not in s:
+            lines = got_d.split(sep) if got_d else []
+            tw_space = "\t\n\x0b\x0c\r "       # textwrap breaks at ASCII whitespace only
+            check("wordwrap", [ln for ln in lines if len(ln) > w and any(c in tw_space for c in ln.strip(tw_space))], [], case,
+                  "contract: only a single unbreakable word may exceed the width")
         stats["distinct"].add(("wordwrap", s, w, blw, boh, ws))
 
     # urlencode -----------------------------------------------------------------------------------------------
@@ -829,7 +854,7 @@ def run(ctx, res):
                  "model against str.isspace / str.splitlines for every code point; filesizeformat on ints around every power of the "
                  "base, floats, numeric strings (model: unit selection; mantissa against exact rationals); int/float on every row of "
                  "the measured table (direct and rendered) plus random numeric spellings against the documented conversion; "
-                 "wordwrap/title/capitalize/upper/lower/urlencode/round/striptags/format against executable reference definitions "
+                 "wordwrap against the model fed with textwrap's output; title/capitalize/upper/lower/urlencode/round/striptags/format against executable reference definitions "
                  "and documented contracts (correspondence only)"),
         "samples": [
             {"filter": "truncate", "request": core.sx(grid_request("truncate", "a b-a")), "cells": len(grid_cells("truncate"))},
@@ -841,7 +866,7 @@ def run(ctx, res):
         "distribution": stats["dist"],
         "reference_checks": nref,
         "finding_witness": f7,
-        "partial": "wordwrap, title/capitalize/upper/lower, urlencode, round, striptags, format and non-ASCII wordcount are "
+        "partial": "wordwrap is proved relative to textwrap's contract only; title/capitalize/upper/lower, urlencode, round, striptags, format and non-ASCII wordcount are "
                    "correspondence-only (Python stdlib behaviour assumed); convert_total holds for the sampled value classes "
                    "except the listed OverflowError rows (known finding F7)",
     })
